@@ -9,7 +9,7 @@ import numpy as np
 
 from vf import rewrites as R
 from vf import sched
-from vf.common import exc_site, short_tb
+from vf.common import exc_site, msg_key, short_tb
 from vf.gen import Prog, ReplayRefused
 from vf.util import closure_has_zero, graph_of, tally_ops, tally_prog
 
@@ -96,7 +96,7 @@ def check_program(g, v, ctx):
         opt_exc = e
     ctx.count("raise_differentials")
     if raw_exc is None and opt_exc is not None:
-        problems.append(("optimization_raises", f"optimized path raises, un-optimized path computes: {short_tb(opt_exc, 10)}", f"optimization_raises:{type(opt_exc).__name__}:{exc_site(opt_exc)}{z}"))
+        problems.append(("optimization_raises", f"optimized path raises, un-optimized path computes: {short_tb(opt_exc, 10)}", f"optimization_raises:{type(opt_exc).__name__}:{exc_site(opt_exc)}:{msg_key(opt_exc)}{z}"))
     elif raw_exc is not None and opt_exc is not None:
         ctx.tab("not_computable_both_raise", f"{type(raw_exc).__name__}:{exc_site(raw_exc)}")
     elif raw_exc is not None:
